@@ -153,8 +153,21 @@ def extract_signatures(ctx=None):
                                 for k in fwd[0].keywords):
         _fail('Analysis.calculate_test_statistic no longer forwards its **kwargs to the test statistic (forwardKws assumes it)')
     fixed = [k.arg for k in fwd[0].keywords if k.arg is not None]
+    try:
+        opa = float(extract.class_attr(LLH_FILE, 'ZeroSigH0SingleDatasetTCLLHRatio', '_one_plus_alpha'))
+    except Exception as e:  # noqa
+        _fail('ZeroSigH0SingleDatasetTCLLHRatio._one_plus_alpha not found as a literal (%s)' % e)
     return {'grad2_calls': g2_calls, 'grad2_impls': g2_impls, 'outer': outer, 'fixed': fixed, 'sites': ts_sites,
-            'ts_impls': ts_impls}
+            'ts_impls': ts_impls, 'opa': opa}
+
+
+_OPA = []
+
+
+def opa_value():
+    if not _OPA:
+        _OPA.append(extract_signatures()['opa'])
+    return _OPA[0]
 
 
 def _lean_sig(params, required, kwargs):
@@ -183,6 +196,9 @@ def generated(ctx):
     L += ['/-- every concrete `__call__` of a `TestStatistic` subclass in skyllh -/',
           'def tsImpls : List (String × Sig) := [']
     L += ['  ' + ',\n  '.join('("%s", %s)' % (c, _lean_sig(p, r, k)) for c, p, r, k in d['ts_impls']) + ']', '']
+    from harness.extract import lean_float
+    L += ['/-- `ZeroSigH0SingleDatasetTCLLHRatio._one_plus_alpha` -/',
+          'def onePlusAlpha {F : Type} [OfScientific F] : F := %s' % lean_float(d['opa']), '']
     L += ['end Gen.C12', '']
     return '\n'.join(L)
 
@@ -620,7 +636,9 @@ def o_llh_history(ctx, case):
                     return 'calculate_ns_grad2 without a preceding evaluate returned %r instead of raising RuntimeError (history %s)' % (r, ' '.join(hist))
             elif r[0] != 'ok':
                 return 'calculate_ns_grad2 after evaluate raised %r (history %s)' % (r, ' '.join(hist))
-            elif last == _f(op[1]):
+            elif last == _f(op[1]) and all(last * (rr - 1.) / case['N'] > opa_value() - 1 + 1e-9 for rr in _fl(case['R'])):
+                # (stable regime only: below the threshold the code continues log_lambda_i by a parabola and
+                #  -sum(nsgrad_i**2) is no longer its second derivative — see c12_nsgrad2_unstable_counterexample)
                 want = g2(last)
                 if abs(Fraction(r[1]) - want) > Fraction(1e-9) * abs(want) + Fraction(1, 10 ** 300):
                     return 'calculate_ns_grad2(ns=%r) right after evaluate(ns=%r) is %r, the second derivative is %r' % (last, last, r[1], float(want))
@@ -644,7 +662,7 @@ def _corr_lh(ctx, cases):
         X = [(r - 1.) / N for r in _fl(c['R'])]
         ops = ','.join({'e': 'e' + f2b(_f(op[1])) if len(op) > 1 else '', 'n': 'n', 'g': 'g' + f2b(_f(op[1])) if len(op) > 1 else '',
                         't': 't', 'u': 't'}[op[0]] for op in c['ops'])
-        reqs.append('lh %d %d %s %s' % (N, len(X), flist(X), ops))
+        reqs.append('lhc %s %d %d %s %s' % (f2b(opa_value()), len(X), N - len(X), flist(X), ops))
     res = []
     for c, ans in zip(cases, ctx.driver('C12', reqs) if reqs else []):
         toks = [] if ans == '-' else ans.split(',')
@@ -666,6 +684,183 @@ def _corr_lh(ctx, cases):
                     break
         res.append(d)
     return res
+
+
+# ---- histories on one real MultiDatasetTCLLHRatio / NsProfileMultiDatasetTCLLHRatio object
+
+def _mh_objects(case):
+    fx, b, multi = _build(dict(case, mode='multi'))
+    obj = multi
+    if case['obj'] == 'profile':
+        from skyllh.core.llhratio import NsProfileMultiDatasetTCLLHRatio
+        obj = NsProfileMultiDatasetTCLLHRatio(pmm=b.pmm, minimizer=fx.make_minimizer(b.cfg), mean_n_sig_0=_f(case['ns0']),
+                                              llhratio=multi, cfg=b.cfg)
+    return fx, b, obj
+
+
+def _exc_tag(e):
+    return 'R' if isinstance(e, RuntimeError) else 'V' if isinstance(e, ValueError) else 'E'
+
+
+def impl_mh(case):
+    """outputs of the history on ONE real object: E<ns> -> (log_lambda, grads[ns]); g -> calculate_ns_grad2; t/u -> Taylor TS"""
+    from skyllh.core.test_statistic import LLHRatioZeroNsTaylorWilksTestStatistic
+    fx, b, obj = _mh_objects(case)
+    fp0 = fx.fitparam_values(b.pmm, 0.0)
+    tsobj = LLHRatioZeroNsTaylorWilksTestStatistic()
+    out = []
+    for op in case['ops']:
+        k = op[0]
+        try:
+            with warnings.catch_warnings():
+                warnings.simplefilter('ignore')
+                with np.errstate(all='ignore'):
+                    if k == 'E':
+                        (ll, g) = obj.evaluate(fx.fitparam_values(b.pmm, _f(op[1])))
+                        out.append(('ok', float(ll), float(g[0])))
+                    elif k == 'n':
+                        obj.initialize_for_new_trial()
+                    elif k == 'g':
+                        pidx, ns = (int(op[1]), _f(op[2])) if len(op) == 3 else (0, _f(op[1]))
+                        rec = b.pmm.create_src_params_recarray(fx.fitparam_values(b.pmm, ns))
+                        out.append(('ok', float(obj.calculate_ns_grad2(ns=ns, ns_pidx=pidx, src_params_recarray=rec))))
+                    else:
+                        kw = dict(pmm=b.pmm, log_lambda=np.float64(0.0), fitparam_values=fp0, llhratio=obj)
+                        if k == 't':
+                            kw['grads'] = np.array([0.123])           # explicit (and deliberately useless) gradients
+                        out.append(('ok', _as_float(tsobj(**kw))))
+        except Exception as e:  # noqa
+            if k != 'n':
+                out.append(('err', _exc_tag(e), '%s: %s' % (type(e).__name__, str(e)[:80])))
+            else:
+                out.append(('err-n', _exc_tag(e)))
+    return out
+
+
+def _mh_parts(case):
+    """per dataset N, N', X_i and the weight factor f_j, from a freshly built and evaluated copy"""
+    o = impl_real(dict(case, kind='real', mode='multi', ns=0.0), want_parts=True)
+    return o['parts']
+
+
+def _mh_model_request(case, parts):
+    ds = ';'.join('%d:%d:%s' % (p_['nSel'], p_['N'] - p_['nSel'], '/'.join(f2b(x) for x in p_['X']) or '-') for p_ in parts)
+    ops = []
+    for op in case['ops']:
+        k = op[0]
+        if k == 'E':
+            b_ = f2b(_f(op[1]))
+            ops += ['e' + b_, 'l' + b_, 'a' + b_]
+        elif k == 'n':
+            ops.append('n')
+        elif k == 'g':
+            if case['obj'] == 'profile':
+                pidx, ns = (int(op[1]), _f(op[2])) if len(op) == 3 else (0, _f(op[1]))
+                ops.append('g%d_%s' % (pidx, f2b(ns)))
+            else:
+                ops.append('g' + f2b(_f(op[-1])))
+        else:
+            ops.append('t')
+    fs = flist([p_['f'] for p_ in parts])
+    if case['obj'] == 'profile':
+        return 'ph %s %s %s %s %s' % (f2b(opa_value()), f2b(_f(case['ns0'])), ds, fs, ','.join(ops))
+    return 'mh %s %s %s %s' % (f2b(opa_value()), ds, fs, ','.join(ops))
+
+
+def _corr_mh(ctx, cases):
+    partss = [_mh_parts(c) for c in cases]
+    reqs = [_mh_model_request(c, ps) for c, ps in zip(cases, partss)]
+    res = []
+    for c, ps, ans in zip(cases, partss, ctx.driver('C12', reqs) if reqs else []):
+        toks = iter([] if ans == '-' else ans.split(','))
+        out = iter(impl_mh(c))
+        scale = sum(abs(x) for p_ in ps for x in p_['X']) + sum(1.0 for p_ in ps) + 1.0
+        d = None
+        for op in c['ops']:
+            k = op[0]
+            if k == 'n':
+                continue
+            r = next(out)
+            if r[0] == 'err-n':              # the new-trial call itself failed: nothing further is comparable
+                d = 'mh: initialize_for_new_trial raised (%s)' % r[1]
+                break
+            mt = [next(toks) for _ in range(2 if k == 'E' else 1)]
+            if k == 'E':
+                lt, at = mt
+                if lt in ('N',):
+                    bad = r[0] != 'err'
+                else:
+                    ns = _f(op[1])
+                    bad = r[0] != 'ok' or not _close(r[1], b2f(lt), 1e-9 * scale * (1 + abs(math.log(max(1e-300, abs(ns) + 1))) + 10)) \
+                        or not _close(r[2], b2f(at), 1e-9 * (abs(b2f(at)) + scale))
+            else:
+                t = mt[0]
+                if t in ('W', 'S', 'R', 'V', 'N'):
+                    bad = r[0] != 'err' or (t in ('R', 'V') and r[1] != t)
+                elif t == 'notfinite':
+                    bad = not (r[0] == 'ok' and not math.isfinite(r[1]))
+                else:
+                    m = b2f(t)
+                    bad = not (r[0] == 'ok' and _close(r[1], m, 1e-9 * abs(m) + 1e-300))
+            if bad:
+                d = 'mh: %s object, op %r of history %r: implementation %r, model %s' % (c['obj'], op, c['ops'], r, mt)
+                break
+        res.append(d)
+    return res
+
+
+def o_obj_history(ctx, case):
+    """multi-dataset / ns-profile LLH-ratio objects: the Taylor statistic at ns = 0 never depends on what the object
+    evaluated before (it equals the value for a freshly prepared object), it raises only when the object cannot be
+    evaluated at all (ns-profile object without an initialised trial); calculate_ns_grad2 right after an evaluate at
+    the same ns (all events stable) is the second derivative; ns_pidx != 0 on the ns-profile object is a ValueError"""
+    out = iter(impl_mh(case))
+    ps = _mh_parts(case)
+    # fresh reference
+    ref = impl_mh(dict(case, ops=([['n']] if case['obj'] == 'profile' else []) + [['u']]))[-1]
+    last, trial = None, case['obj'] != 'profile'
+    hist = []
+    for op in case['ops']:
+        k = op[0]
+        hist.append(k + ','.join(repr(_f(v)) for v in op[1:]))
+        if k == 'n':
+            trial, last = True, (_f(case.get('ns0', 0.0)) if case['obj'] == 'profile' else None)
+            continue
+        r = next(out)
+        if r[0] == 'err-n':
+            return 'initialize_for_new_trial raised on the %s object' % case['obj']
+        if k == 'E':
+            if r[0] == 'ok':
+                last = _f(op[1])
+            elif trial:
+                return 'evaluate(ns=%r) on the %s object raised %s (history %s)' % (_f(op[1]), case['obj'], r[2], ' '.join(hist))
+        elif k == 'g':
+            pidx, ns = (int(op[1]), _f(op[2])) if len(op) == 3 else (0, _f(op[1]))
+            if case['obj'] == 'profile' and pidx != 0:
+                if r[:2] != ('err', 'V'):
+                    return 'ns-profile calculate_ns_grad2(ns_pidx=%d) gave %r instead of the documented ValueError' % (pidx, r)
+            elif last is not None and last == ns and r[0] == 'ok' and all(
+                    ns * p_['f'] * x > opa_value() - 1 + 1e-9 for p_ in ps for x in p_['X']):
+                want = sum((Fraction(p_['f']) ** 2 * (
+                    -sum(((Fraction(x) / (1 + Fraction(ns) * Fraction(p_['f']) * Fraction(x))) ** 2 for x in p_['X']), Fraction(0))
+                    - Fraction(p_['N'] - p_['nSel']) / (p_['N'] - Fraction(ns) * Fraction(p_['f'])) ** 2) for p_ in ps), Fraction(0))
+                mag = sum((Fraction(p_['f']) ** 2 * (sum((Fraction(x) ** 2 for x in p_['X']), Fraction(0)) + 1) for p_ in ps), Fraction(0))
+                if abs(Fraction(r[1]) - want) > Fraction(1e-7) * (abs(want) + mag):
+                    return 'calculate_ns_grad2(ns=%r) right after evaluate(ns=%r) on the %s object is %r, the second derivative is %r' % (
+                        ns, ns, case['obj'], r[1], float(want))
+        else:
+            how = 'explicit grads' if k == 't' else 'grads=None'
+            if not trial:
+                continue                      # no trial initialised on the ns-profile object: it cannot be evaluated at all
+            if r[0] != 'ok':
+                return 'zero-ns Taylor TS (%s) on a %s LLH-ratio object with history [%s] raised %s; on a freshly prepared object it is %r' % (
+                    how, case['obj'], ' '.join(hist[:-1]), r[2], ref[1] if ref[0] == 'ok' else ref)
+            if ref[0] == 'ok' and not _close(r[1], ref[1], 1e-9 * abs(ref[1]) + 1e-300) and not (
+                    not math.isfinite(ref[1]) and not math.isfinite(r[1])):
+                return 'zero-ns Taylor TS (%s) on a %s LLH-ratio object with history [%s] is %r; on a freshly prepared object it is %r' % (
+                    how, case['obj'], ' '.join(hist[:-1]), r[1], ref[1])
+            last = 0.0
+    return None
 
 
 def o_ana_chain(ctx, case):
@@ -1328,6 +1523,8 @@ def o_corr(ctx, case):
         return _corr_hist(ctx, [case])[0]
     if case['kind'] == 'lh':
         return _corr_lh(ctx, [case])[0]
+    if case['kind'] == 'mh':
+        return _corr_mh(ctx, [case])[0]
     return corr_compare(case, ctx.driver('C12', [corr_request(case)])[0])
 
 
@@ -1434,7 +1631,7 @@ def _corr_hist(ctx, hcases):
     return res
 
 
-ORACLES = {'poly_equivariance': o_poly_equivariance, 'gamma_real': o_gamma_real, 'llh_history': o_llh_history, 'purity': o_purity, 'ts_history': o_ts_history, 'ts': o_ts, 'ts_taylor': o_ts_taylor, 'ts_real': o_ts_real, 'ana_chain': o_ana_chain,
+ORACLES = {'obj_history': o_obj_history, 'poly_equivariance': o_poly_equivariance, 'gamma_real': o_gamma_real, 'llh_history': o_llh_history, 'purity': o_purity, 'ts_history': o_ts_history, 'ts': o_ts, 'ts_taylor': o_ts_taylor, 'ts_real': o_ts_real, 'ana_chain': o_ana_chain,
            'pval': o_pval, 'mixed': o_mixed, 'poly': o_poly, 'corr': o_corr}
 
 # property oracle looking at the same behaviour as a correspondence kind, and how to turn the case into its input
@@ -1444,6 +1641,7 @@ _ORACLE_OF_KIND = {
     'real': [('ts_real', lambda c: c), ('ana_chain', lambda c: c)],
     'hist': [('ts_history', lambda c: c)],
     'lh': [('llh_history', lambda c: c)],
+    'mh': [('obj_history', lambda c: c)],
     'pv': [('pval', lambda c: {'tsv': c['tsv'], 'thrs': [c['thr']]})],
     'mix': [('mixed', lambda c: c), ('pval', lambda c: {'tsv': c['tsv'], 'thrs': [c['thr']]})],
     'poly': [('poly', lambda c: c)],
@@ -1621,11 +1819,17 @@ def gen_purity(rng):
 def gen_lh(rng):
     E = rng.choice([0, 1, 2, 3, 5])                # 0: no selected event at all
     N = max(1, E + rng.choice([0, 0, 1, 3, 20]))
-    R = [rng.choice([rng.uniform(0.0, 4.0), rng.uniform(0.0, 4.0), 1.0]) for _ in range(E)]
+    R = [rng.choice([rng.uniform(0.0, 4.0), rng.uniform(0.0, 4.0), 1.0, 0.0]) for _ in range(E)]
     if rng.random() < 0.08:
         R = [1.0] * E
     def some_ns():
-        return rng.choice([0.0, 0.0, 0.25, 0.6, 0.6 * N, -0.3, -0.3 * N, 1e-3])
+        c = [0.0, 0.0, 0.25, 0.6, 0.6 * N, -0.3, -0.3 * N, 1e-3]
+        # values that push events below the stability threshold alpha_i <= one_plus_alpha - 1 (Taylor continuation)
+        if R and min(R) < 1.0:
+            c += [min(0.99999 * N, 0.9995 * N / (1.0 - min(R)))] * 2
+        if R and max(R) > 1.0:
+            c += [-0.9995 * N / (max(R) - 1.0)] * 2
+        return rng.choice(c)
     ops = []
     for _ in range(rng.choice([1, 2, 3, 4, 6])):
         k = rng.choice(['e', 'e', 'e', 'n', 'g', 't', 'u'])
@@ -1639,6 +1843,31 @@ def gen_lh(rng):
     if ops[-1] == ['g']:
         ops[-1] = ['g', 0.0]
     return {'kind': 'lh', 'R': R, 'N': N, 'ops': ops}
+
+
+def gen_mh(rng, nprng):
+    base = gen_real(rng, nprng)
+    while base['mode'] != 'multi':
+        base = gen_real(rng, nprng)
+    obj = rng.choice(['multi', 'multi', 'profile'])
+    Nmin = min(base['Ns'])
+    def some_ns():
+        return rng.choice([0.0, 0.0, 0.25, 0.5, 0.6 * Nmin, -0.3, 1e-3])
+    ops = []
+    for _ in range(rng.choice([1, 2, 3, 4, 6])):
+        k = rng.choice(['E', 'E', 'E', 'n', 'g', 't', 'u'])
+        if k == 'E':
+            ops.append(['E', some_ns()])
+        elif k == 'g':
+            ns = rng.choice([some_ns()] + [o[1] for o in ops if o[0] == 'E'])
+            ops.append(['g', rng.choice([0, 0, 0, 1]), ns] if obj == 'profile' else ['g', ns])
+        else:
+            ops.append([k])
+    ops.append([rng.choice(['t', 'u'])])
+    c = {'kind': 'mh', 'obj': obj, 'Rs': base['Rs'], 'Ns': base['Ns'], 'W': base['W'], 'Y': base['Y'], 'ops': ops}
+    if obj == 'profile':
+        c['ns0'] = rng.choice([0.0, 0.5, 0.25 * Nmin])
+    return c
 
 
 def gen_hist(rng):
@@ -1721,10 +1950,17 @@ def run(ctx):
     lhs = [gen_lh(rng) for _ in range(ctx.n(60, 1500))]
     for c in lhs:
         ctx.count('lh:selected-events=%s' % ('0' if not c['R'] else '>=1'))
+        ctx.count('lh:evaluate-with-unstable-events', sum(
+            1 for o in c['ops'] if o[0] == 'e' and any(_f(o[1]) * (rr - 1.) / c['N'] <= opa_value() - 1 for rr in c['R'])))
         ctx.count('lh:ends-with-' + c['ops'][-1][0])
         ctx.count('lh:stale-before-TS', int(any(o[0] in 'tu' and any(p[0] == 'e' and _f(p[1]) != 0 for p in c['ops'][:i])
                                                 for i, o in enumerate(c['ops']))))
         ocases.append(('llh_history', c))
+    # ---- histories on one real multi-dataset / ns-profile LLH-ratio object
+    mhs = [gen_mh(rng, nprng) for _ in range(ctx.n(40, 800))]
+    for c in mhs:
+        ctx.count('mh:%s' % c['obj'])
+        ocases.append(('obj_history', c))
     # ---- purity of every helper (caller arrays untouched, same objects twice, input forms)
     for _ in range(ctx.n(300, 6000)):
         c = gen_purity(rng)
@@ -1819,6 +2055,11 @@ def run(ctx):
     for c, d in zip(lhs, _corr_lh(ctx, lhs)):
         ctx.case(nontrivial=True, key=c, desc=c if ctx.evaluations % 97 == 0 else None)
         ctx.count('corr:lh')
+        if d:
+            suspicious.append((c, None, d))
+    for c, d in zip(mhs, _corr_mh(ctx, mhs)):
+        ctx.case(nontrivial=True, key=c, desc=c if ctx.evaluations % 97 == 0 else None)
+        ctx.count('corr:mh')
         if d:
             suspicious.append((c, None, d))
     for c, d in zip(hists, _corr_hist(ctx, hists)):
